@@ -595,6 +595,13 @@ def lusup_stride_rule(chk, cid, prog, fnames, cfgname):
                 arrs.add(x.a['id'])
         if not arrs:
             continue
+        # pointers into the block (lu_sup_ptr = &lusup[xlusup[fsupc]]) are subscripted like the block itself
+        for x in f.body.walk():
+            if x.k == 'Assign' and x.a['op'] == '=' and strip(x.c[0]).k == 'Ref' and strip(x.c[0]).a.get('id'):
+                r = strip(x.c[1])
+                if r.k == 'Unary' and r.a['op'] == '&' and strip(r.c[0]).k == 'Index' and strip(strip(r.c[0]).c[0]).k == 'Ref' \
+                        and strip(strip(r.c[0]).c[0]).a.get('id') in arrs:
+                    arrs.add(strip(x.c[0]).a['id'])
         # position variables: every variable named inside a subscript of the value array
         pos = set()
         subs = []
